@@ -354,8 +354,8 @@ Section Local.
         erewrite (holds_of_ev en) in C by (ev_tac P1).
         erewrite (holds_of_ev en) in D by (ev_tac P1).
         erewrite (holds_of_ev en) in E by (ev_tac P1).
-        apply eqb_true_eq in C. apply eqb_true_eq in D. apply eqb_true_eq in E.
-        rewrite P1, P2 in C. rewrite P2 in D, E. auto.
+        apply Bool.eqb_prop in C. apply Bool.eqb_prop in D. apply Bool.eqb_prop in E.
+        rewrite P1, P2 in C. rewrite P2 in D, E. repeat split; assumption.
     - intros [Hrule Hout]. repeat split.
       + intros p Hp. destruct (rowmajor_decode (w + 1) (h + 1) p Hp) as [y [x [Hy [Hx ->]]]].
         destruct (Hout y x ltac:(lia) ltac:(lia)) as [P1 [P2 _]].
